@@ -889,7 +889,7 @@ inline uint StringDictionaryRPHTFC::decodeString(uchar *str, uint *strLen,
   uint rule;
 
   // The VByte is firstly extracted
-  while (read < 2) {
+  while (VByte::incomplete(vb, read)) {
     *ptr += decodeSymbol(&rule, *ptr, offset);
 
     if (rule >= rp->terminals)
